@@ -964,10 +964,14 @@ impl<R: std::io::Read> FlacChannelReader<R> {
                 .map(|c| &c[self.consumed..])
                 .collect())
         } else {
-            self.consumed = 0;
             let channels = usize::from(self.decoder.channel_count().get());
             match self.decoder.read_frame()? {
-                Some(frame) => Ok(frame.channels().collect()),
+                Some(frame) => {
+                    self.consumed = 0;
+                    Ok(frame.channels().collect())
+                }
+                // leave the previous frame marked as consumed
+                // so that it is not handed out again
                 None => Ok(vec![&[]; channels]),
             }
         }
